@@ -155,7 +155,7 @@ theorem osStep_content {w w' : World} {c sc f r} (h : osStep w c sc f = some (w'
     · exact absurd rfl hne
     · simp at hne
   | close fd =>
-    rcases osStep_close_spec h with ⟨e, _, rfl⟩ | ⟨o, _, _, rfl⟩
+    rcases osStep_close_spec h with rfl | ⟨o, _, _, rfl⟩
     · exact absurd rfl hne
     · simp at hne
   | ftruncate fd n =>
@@ -279,7 +279,7 @@ theorem osStep_hist {w w' : World} {c sc f r} (h : osStep w c sc f = some (w', r
       · exact .inl rfl
       · exact key fd o.path rfl rfl
     | close fd =>
-      rcases osStep_close_spec h with ⟨e, _, rfl⟩ | ⟨o, _, _, rfl⟩
+      rcases osStep_close_spec h with rfl | ⟨o, _, _, rfl⟩
       · exact .inl rfl
       · exact key fd o.path rfl rfl
     | _ => simp [Sys.ctl] at hctl
@@ -303,7 +303,7 @@ theorem osStep_fds_other {w w' : World} {c sc f r} (hw : WInv w) (h : osStep w c
   | funlock fd0 => rcases osStep_funlock_spec h with ⟨e, _, rfl⟩ | ⟨o, _, _, rfl⟩ <;> simp
   | close fd0 =>
     have : fd ≠ fd0 := fun e => hfd (by simp [Sys.fdArg, e])
-    rcases osStep_close_spec h with ⟨e, _, rfl⟩ | ⟨o, _, _, rfl⟩
+    rcases osStep_close_spec h with rfl | ⟨o, _, _, rfl⟩
     · rfl
     · rw [closeFd_fds, if_neg this]
   | ftruncate fd0 n => rcases osStep_ftruncate_spec h with ⟨e, _, rfl⟩ | ⟨o, _, _, _, rfl⟩ <;> rfl
